@@ -15,7 +15,7 @@ import (
 )
 
 type C06Op struct {
-	Op  string `json:"op"`  // unused | noise
+	Op  string `json:"op"`  // unused | unused-cli (coca refactor -m <empty config> -p dir) | noise
 	Dir int    `json:"dir"` // which project directory
 }
 
@@ -61,7 +61,11 @@ func (C06) Generate(t *tape.Tape, tier string) interface{} {
 	}
 	order := t.Perm(nd)
 	for _, d := range order {
-		first.Ops = append(first.Ops, C06Op{Op: "unused", Dir: d})
+		kind := "unused"
+		if t.Bool(1, 4) {
+			kind = "unused-cli"
+		}
+		first.Ops = append(first.Ops, C06Op{Op: kind, Dir: d})
 		if t.Bool(1, 3) {
 			first.Ops = append(first.Ops, C06Op{Op: "unused", Dir: d}) // immediately again, same process
 		}
@@ -150,6 +154,12 @@ func (C06) Run(ctx *sim.RunCtx, data json.RawMessage) (*sim.Outcome, error) {
 				metas = append(metas, meta{"noise", op.Dir})
 			case "unused":
 				proc.Ops = append(proc.Ops, sim.Op{Op: "unusedImports", Args: map[string]interface{}{"dir": dirs[op.Dir]}})
+				metas = append(metas, meta{"unused", op.Dir})
+			case "unused-cli":
+				// the CLI route: the move-class scan (with an empty move list) runs first in the same process
+				cfg := filepath.Join(ctx.Dir, "empty-move.config")
+				os.WriteFile(cfg, []byte(""), 0644)
+				proc.Ops = append(proc.Ops, sim.Op{Op: "cli", Args: map[string]interface{}{"args": []string{"refactor", "-m", cfg, "-p", dirs[op.Dir]}}})
 				metas = append(metas, meta{"unused", op.Dir})
 			default:
 				return nil, sim.Harness("unknown op %q", op.Op)
